@@ -1301,14 +1301,13 @@ class Scatter(Funsor):
         return op, subs, source, reduced_vars
 
     def eager_subs(self, subs):
-        subs = OrderedDict(subs)
-        new_subs = []
-        for name, sub in self.subs:
-            if name in subs and isinstance(subs[name], Variable):
-                new_subs.append((subs[name].name, sub))
-            else:
-                new_subs.append((name, sub))
-        return Scatter(self.op, tuple(new_subs), self.source, self.reduced_vars)
+        rename = {k: v.name for k, v in subs if isinstance(v, Variable)}
+        rest = tuple((k, v) for k, v in subs if not isinstance(v, Variable))
+        if not rename or any(name in dict(rest) for name in rename.values()):
+            return None  # stay lazy; renaming first would not be simultaneous
+        new_subs = tuple((rename.get(name, name), sub) for name, sub in self.subs)
+        result = Scatter(self.op, new_subs, self.source, self.reduced_vars)
+        return Subs(result, rest) if rest else result
 
 
 class Approximate(Funsor):
